@@ -169,6 +169,35 @@ def shard_iter(iterable, shard, nshards):
             yield i, item
 
 
+# --------------------------------------------------------------------------- horizons
+class Horizon(Exception):
+    pass
+
+
+class watchdog:
+    """Wall-clock horizon for code that offers no instruction/T-state budget of its own.
+    Both the Python simulators (pure Python loops) and the C ones (CHECK_SIGNALS in their
+    loops) are interruptible by SIGALRM."""
+    def __init__(self, seconds, what=''):
+        self.seconds = seconds
+        self.what = what
+
+    def _fire(self, signum, frame):
+        raise Horizon('horizon of {} s exceeded: {}'.format(self.seconds, self.what))
+
+    def __enter__(self):
+        import signal
+        self.old = signal.signal(signal.SIGALRM, self._fire)
+        signal.alarm(self.seconds)
+        return self
+
+    def __exit__(self, *exc):
+        import signal
+        signal.alarm(0)
+        signal.signal(signal.SIGALRM, self.old)
+        return False
+
+
 # --------------------------------------------------------------------------- deviations
 def deviations(defaults, alternatives, d):
     """Every assignment differing from `defaults` in at most d dimensions.
